@@ -220,6 +220,30 @@ ARANK_BASE = EXTERN_BASE.replace("int top_count(int n)", "int top_count(double *
     "int depth(int n)", "int depth(int *v +dimension(..))").replace("int inside(int n)", "int inside(float *v +dimension(..))")
 
 
+# (1g) callbacks with unnamed parameters: the names of the abstract interface and of its dummy arguments come from
+# options of the function's own scope
+CALLB_BASE = EXTERN_BASE.replace("int top_count(int n)", "int top_count(int (*incr)(int), int n)").replace(
+    "double scale(double x, int n)", "double scale(double (*weigh)(double, int), int n)").replace(
+    "int depth(int n)", "int depth(void (*visit)(int, int))").replace("int inside(int n)", "int inside(int (*pick)(int), int n)")
+# (1h) a struct and the functions that take it: PY_struct_arg stated on the library == stated on the struct and on every function
+STRUCT_ARG_BASE = """\
+library: sarg
+language: c
+cxx_header: sarg.h
+options:
+  wrap_python: true
+  wrap_lua: false
+  PY_array_arg: list
+declarations:
+- decl: struct Point { int x; double y; };
+- decl: double norm(const Point *p)
+- block: true
+  declarations:
+  - decl: struct Cell { int i; int j; };
+  - decl: int corner(Cell *c +intent(inout))
+"""
+
+
 # (1d) enumerations: a setting on the enum declaration itself == the same setting on a block that holds only that enum
 ENUM_BASE = """\
 library: En
@@ -510,6 +534,20 @@ def run(ctx):
     for container in EXTERN_CONTAINERS:
         a, b = placement_pair(xbase, "options", "C_extern_C", True, container, EXTERN_CONTAINERS)
         add(("placement", "options", "C_extern_C", "extern-" + container), a, b)
+    cbase = yaml.safe_load(CALLB_BASE)
+    for oname, oval in (("F_abstract_interface_argument_template", "v{index}"), ("F_abstract_interface_subprogram_template", "cb_{underscore_name}_{argname}")):
+        for container in EXTERN_CONTAINERS:
+            a, b = placement_pair(cbase, "options", oname, oval, container, EXTERN_CONTAINERS)
+            add(("placement", "options", oname, "callback-" + container), a, b)
+    sbase = yaml.safe_load(STRUCT_ARG_BASE)
+    for sval in ("class", "list"):
+        for container, path in (("library", ()), ("block", ("declarations", 2))):
+            a = copy.deepcopy(sbase)
+            b = copy.deepcopy(sbase)
+            node_at(a, path).setdefault("options", {})["PY_struct_arg"] = sval
+            for dnode in ([x for x in node_at(b, path)["declarations"] if "decl" in x] + ([y for x in node_at(b, path)["declarations"] if "block" in x for y in x["declarations"]] if container == "library" else [])):
+                dnode.setdefault("options", {})["PY_struct_arg"] = sval
+            add(("placement", "options", "PY_struct_arg=" + sval, "struct-" + container), a, b)
     abase = yaml.safe_load(ARANK_BASE)
     for oname, oval in (("F_assumed_rank_max", 2), ("F_assumed_rank_min", 1)):
         for container in EXTERN_CONTAINERS:
